@@ -330,6 +330,17 @@ fn dump(tcx: TyCtxt<'_>) {
                     if let Some((ok, err)) = res {
                         let us: Vec<String> = uses.iter().map(|u| esc(u)).collect();
                         let _ = write!(calls, ",\"ok\":{},\"err\":{},\"uses\":[{}]", esc(&ok), esc(&err), us.join(","));
+                    } else if (cname.ends_with("::ok") || cname.ends_with("::err")) && cname.contains("result::Result") {
+                        // `r.ok()` / `r.err()`: what happens to the Option decides whether the failure was looked at
+                        let mut ouses = BTreeSet::new();
+                        if destination.projection.is_empty() {
+                            let mut seen = BTreeSet::new();
+                            uses_of(tcx, body, def_id, destination.local, 0, &mut seen, &mut ouses);
+                        } else {
+                            ouses.insert("stored".to_string());
+                        }
+                        let us: Vec<String> = ouses.iter().map(|u| esc(u)).collect();
+                        let _ = write!(calls, ",\"opt_uses\":[{}]", us.join(","));
                     }
                     calls.push('}');
                 }
